@@ -121,6 +121,16 @@ def clauses(case, d):
         bad.append("unexpected-exception-from-do:" + d["raised"].split(":")[-1])
     if list(d["doers"]) != ref[0]:
         bad.append("final-doers-list-differs")
+    # an extended doer gets its first recur in the next cycle unless it is removed or the run is stopped first:
+    # a run that ticked on to T + tock and then ended WITHOUT limit / exception must have resumed it
+    if d["raised"] == "-" and d["done"] and not any(e[1] == "abort" for e in tr):
+        stop = None if limit is None else float(start) + abs(float(limit))
+        for j, T in by_extend.items():
+            if par.get(j) == 0 and nrec.get(j) == 0 and j in entered_at:
+                ceased = [x for x in tr[entered_at[j][0]:] if x[0] == j and x[1] == "cease"]
+                nxt = T + float(tock)
+                if ceased and ceased[0][2] == nxt and d["tyme"] == nxt and (stop is None or nxt < stop):
+                    bad.append("extended-doer-never-recurred-although-nothing-stopped-the-run")
     # a self-removed doer keeps running until it returns: it is never ceased unless the whole scheduler stops
     for j in removed_self:
         hist = [(x[1], n) for n, x in enumerate(tr) if x[0] == j and x[1] in S.LIFE]
@@ -254,6 +264,20 @@ class C06(S.SchedCheck):
     level_text = ('Lean theorems for every state of a scheduler in mid cycle: doers_list_exact (doers after any op sequence = fold of the ordered-set spec, every snapshot equal to the spec), extend_spec_meaning, doers_list_exact_raised (failing enter inside extend: exactly the doers entered before it are listed), extend_present_noop, extend_queues_right_of_marker + extend_enters_now + cycle_resumes_only_left_of_marker + extend_runs_next_cycle (new doers are entered at the current tyme, queued right of the marker, not resumed in this cycle), remove_closes_before_return + close_is_cease_exit + removed_never_recurs + remove_doers + cycle_skips_removed, self_remove_no_lifecycle_event + self_remove_keeps_running. That the new deed IS resumed in the next cycle: due_head_recurs, due_deed_recurs, extended_doer_recurs_next_cycle (any later cycle with now <= now2, unless the cycle raised or the deed was removed in it) and extended_doer_recurs_next_doist_cycle (at now + tock, under the LawfulTyme laws of HioModel/Sched/TimeDefs.lean and 0 <= tock; Float satisfying them is an assumption). F05/F06/F04 were repaired on fix/sched.')
     level_note = ('Trusted: as C01.  The ordered-set reference oracle replays the ops announced by each recur against the snapshots the real scheduler left.')
     profiles = ("ops", "ops", "ops", "mixed", "lastop", "closeops")
+
+    def generate(self, rng, n, tier):
+        yield from super().generate(rng, n, tier)
+        # removing an IDLE DoDoer(always=True) (all its doers completed, done True, still scheduled) from a sibling
+        y = ([], ("yield", 0.0))
+        for _ in range(max(10, n // 50)):
+            t = rng.choice(S.TOCKS)
+            kids = [("leaf", 11 + q, rng.choice(S.SHAPES), "ok", [y] * rng.choice([0, 1, 2])) for q in range(rng.choice([0, 1, 2, 3]))]
+            g = ("group", 10, rng.choice([0.0, 0.0, t]), True, kids, [])
+            pre = rng.choice([3, 4, 5])
+            x = ("leaf", 20, rng.choice(S.SHAPES), "ok", [y] * pre + [([("remove", [10] + ([20] if rng.random() < 0.2 else []))], ("yield", 0.0))] + [y] * rng.choice([2, 4]))
+            other = [("leaf", 30, rng.choice(S.SHAPES), "ok", [y] * 9)] if rng.random() < 0.5 else []
+            specs = [g, x] if rng.random() < 0.6 else [x, g]
+            yield ("run", t, rng.choice(S.STARTS), rng.choice([None, 12 * t]), [], other + specs)
 
     def corpus(self):
         y = ([], ("yield", 0.0))
